@@ -1,6 +1,7 @@
 import MesaModel.Proofs.LegacyRejects
 import MesaModel.Proofs.LegacyPlaceRaw
 import MesaModel.Proofs.LegacyDraws
+import MesaModel.Proofs.LegacySelectCong
 /-!
 # C18 (legacy-grid part), round 3 — *when exactly* a call is rejected, placements outside the grid, any later history
 
@@ -112,6 +113,18 @@ theorem C18_legacy_rejected_calls_deletable_any_future (g : Grid) (hw : 0 < g.w)
   have hh1 : 0 < (run g ops).h := by rw [c1.2.1]; exact hh
   obtain ⟨e1, e2, e3⟩ := run_cong later (run g ops) (run g (accepted g ops)) hw1 hh1 i1 i2 h1 hl
   exact ⟨e2, (obsEq_iff_forget _ _).mpr e1, e3⟩
+
+/-- **…and the round-3 reads show the same too**: `coord_iter()` and `select_cells(…)` (any masks, `only_empty`, conditions,
+    extreme values, either return form) answer the same after a history and after that history without its rejected calls
+    (extends `C18_legacy_reads_same_after_deletion`) -/
+theorem C18_legacy_new_reads_same_after_deletion (g : Grid) (hw : 0 < g.w) (hh : 0 < g.h) (hi : Inv g) (ops : List Op)
+    (hok : HistOk g ops) :
+    (run g (accepted g ops)).coordIter = (run g ops).coordIter ∧
+    ∀ ls masks oe conds exts,
+      (run g (accepted g ops)).selectCells ls masks oe conds exts = (run g ops).selectCells ls masks oe conds exts ∧
+      (run g (accepted g ops)).selectMask ls masks oe conds exts = (run g ops).selectMask ls masks oe conds exts := by
+  obtain ⟨h1, _⟩ := run_accepted ops g g hw hh hi hi rfl hok
+  exact new_reads_obs ((obsEq_iff_forget _ _).mpr h1)
 
 /-! ## non-vacuity -/
 
